@@ -1351,6 +1351,17 @@ class CxxPaths:
             body = inner[-1] if inner else None
             once = self.stmt(body, p, depth) if body is not None else [p]
             return once + [p]
+        if k == "CXXTryStmt":
+            # the protected block, and — from its start — each handler (an exception may leave the block anywhere)
+            res = []
+            if inner:
+                res += self.stmt(inner[0], p, depth)
+            for h in inner[1:]:
+                if h.get("kind") == "CXXCatchStmt":
+                    hb = [c for c in (h.get("inner") or []) if isinstance(c, dict) and c.get("kind") == "CompoundStmt"]
+                    if hb:
+                        res += self.stmt(hb[-1], p, depth)
+            return res
         if k == "ReturnStmt":
             q = p.ext(events=self.expr_events(n, nl, depth, p), outcome="return", ret=txt(inner[0]) if inner else "")
             return [q]
@@ -1864,6 +1875,133 @@ def rule_zigzag_width(out, tier):
         out.undecided(rid, "anchor/ZigZagEncode", rel, "no zig-zag encoder with a sign shift found")
 
 
+def _nlohmann_include():
+    for d in ("/usr/include", "/usr/local/include", "/root/miniconda/include", "/opt/conda/include"):
+        if os.path.exists(os.path.join(d, "nlohmann", "json.hpp")):
+            return d
+    return None
+
+
+def dump_ndjson(repo, header):
+    """clang AST of a header of detail/ndjson (needs nlohmann/json.hpp, which is not part of the repository)"""
+    key = (repo, "ndjson/" + header)
+    if key in _cache:
+        return _cache[key]
+    inc = _nlohmann_include()
+    if inc is None:
+        _cache[key] = (None, 0, "nlohmann/json.hpp not installed")
+        return _cache[key]
+    path = os.path.join(repo, INC, "detail", "ndjson", header)
+    cmd = ["clang++", "-std=c++17", "-fsyntax-only", "-x", "c++-header", "-Wno-everything",
+           "-I", os.path.join(VERIF, "cxxstubs", "a", "b"), "-I", os.path.join(VERIF, "cxxstubs"), "-I", inc,
+           "-Xclang", "-ast-dump=json", "-Xclang", "-ast-dump-filter=yardl::ndjson", path]
+    r = subprocess.run(cmd, capture_output=True, text=True)
+    roots, dec, i, t = [], json.JSONDecoder(), 0, r.stdout
+    while True:
+        i = t.find("{", i)
+        if i < 0:
+            break
+        try:
+            o, j = dec.raw_decode(t, i)
+        except json.JSONDecodeError:
+            break
+        roots.append(o)
+        i = j
+    _cache[key] = (roots, r.returncode, r.stderr[-2000:])
+    return _cache[key]
+
+
+def rule_ndjson_header(out, tier):
+    rid = "NH1"
+    out.rule(rid, "detail/ndjson/header.h (analysed when nlohmann/json.hpp is installed): ReadHeader completes only when the header's \"version\" entry — read with "
+                  "operator[] / at(), not with value(key, default) — equals kNDJsonFormatVersionNumber; ReadAndValidateHeader completes only when the whole parsed "
+                  "expected schema equals the whole schema read", 0)
+    roots, rc, err = dump_ndjson(out.repo, "header.h")
+    rel = INC + "/detail/ndjson/header.h"
+    if roots is None:
+        out.stats["NH1_not_analysed"] = err
+        return
+    if rc != 0 or not roots:
+        out.undecided(rid, "clang/ndjson/header.h", rel, "clang could not parse the header: " + err[-300:])
+        return
+    for r in roots:
+        annotate_lines(r)
+    with open(os.path.join(out.repo, INC, "detail", "ndjson", "header.h")) as f:
+        _SRC[0] = f.read()
+    fns = dict(free_functions(roots))
+    rh, rv = fns.get("ReadHeader"), fns.get("ReadAndValidateHeader")
+    if rh is None or rv is None:
+        out.undecided(rid, "ReadHeader/ReadAndValidateHeader", rel, "not found")
+        return
+
+    def norm(t):
+        return t.replace(" ", "").replace("\n", "")
+    # ReadHeader: try-block paths are paths too (CxxPaths walks CXXTryStmt bodies as compound statements when they are CompoundStmt children)
+    cp = CxxPaths({})
+    ok_paths = [p for p in cp.paths(rh) if p.outcome != "throw"]
+    posn = "%s:%d" % (rel, rh.get("_line", 0))
+    if cp.overflow or not ok_paths:
+        out.undecided(rid, "ReadHeader/paths", posn, "cannot enumerate the paths of ReadHeader")
+    else:
+        # the comparisons with the format version constant, read off the AST: what is compared, and how it was looked up
+        cmps = []
+        for x in walk(body_of(rh)):
+            if x.get("kind") not in ("BinaryOperator", "CXXOperatorCallExpr"):
+                continue
+            inner = [c for c in (x.get("inner") or []) if isinstance(c, dict)]
+            op = x.get("opcode")
+            operands = inner
+            if x.get("kind") == "CXXOperatorCallExpr":
+                names = [(y.get("referencedDecl") or {}).get("name") for y in walk(inner[0])] if inner else []
+                op = "!=" if "operator!=" in names else "==" if "operator==" in names else None
+                operands = inner[1:]
+            if op not in ("!=", "==") or len(operands) != 2:
+                continue
+            refs = [[(y.get("referencedDecl") or {}).get("name") for y in walk(o) if y.get("kind") == "DeclRefExpr"] for o in operands]
+            for ci, oi in ((0, 1), (1, 0)):
+                if "kNDJsonFormatVersionNumber" in refs[ci] and "kNDJsonFormatVersionNumber" not in refs[oi]:
+                    other = operands[oi]
+                    strs = [y.get("value", "") for y in walk(other) if y.get("kind") == "StringLiteral"]
+                    calls = [(y.get("name") or (y.get("referencedDecl") or {}).get("name") or "") for y in walk(other)
+                             if y.get("kind") in ("MemberExpr", "DeclRefExpr")]
+                    by_index = any(c in ("operator[]", "at") for c in calls)
+                    with_default = "value" in calls
+                    cmps.append((txt(x), op, '"\\"version\\""' in json.dumps(strs) or any("version" in t for t in strs), by_index and not with_default))
+        good_cmp = [c for c in cmps if c[2] and c[3]]
+        bad = None
+        for p in ok_paths:
+            good = False
+            for t, op, _isver, _idx in good_cmp:
+                for lt, val in p.lits:
+                    if lt == t and ((op == "!=" and not val) or (op == "==" and val)):
+                        good = True
+            if not good:
+                bad = p
+        out.check(bad is None and bool(good_cmp), rid, "ReadHeader/version compared", posn, "every completing path found header[\"version\"] equal to the format version",
+                  "ReadHeader can complete without the header's own \"version\" entry having been found equal to kNDJsonFormatVersionNumber (a lookup with a default — "
+                  "value(\"version\", k) — accepts a header without the entry, or with one of another type): streams of another format version or foreign JSON lines are read as data")
+    cp2 = CxxPaths({})
+    ok2 = [p for p in cp2.paths(rv) if p.outcome != "throw"]
+    posn2 = "%s:%d" % (rel, rv.get("_line", 0))
+    if cp2.overflow or not ok2:
+        out.undecided(rid, "ReadAndValidateHeader/paths", posn2, "cannot enumerate the paths")
+    else:
+        bad = None
+        for p in ok2:
+            good = False
+            for a, op, b in p.facts():
+                if op != "==":
+                    continue
+                ea, eb = norm(p.expand(a)), norm(p.expand(b))
+                for x, y in ((ea, eb), (eb, ea)):
+                    if "parse(expected_schema" in x and "ReadHeader(stream)" in y and "[" not in x and "[" not in y and ".at(" not in y:
+                        good = True
+            if not good:
+                bad = p
+        out.check(bad is None, rid, "ReadAndValidateHeader/schema compared", posn2, "every completing path found the whole schemas equal",
+                  "ReadAndValidateHeader can complete without the whole parsed expected schema having been found equal to the whole schema of the stream")
+
+
 def rule_no_swallowed_eof(out, tier):
     rid = "CB6"
     out.rule(rid, "binary runtime headers: the end-of-stream exception propagates — no routine of coded_stream.h, serializers.h, header.h or reader_writer.h catches "
@@ -1911,8 +2049,8 @@ def rule_no_swallowed_eof(out, tier):
 RULES = {
     "C16": [rule_coded_stream_bounds, rule_blocks, rule_fill_loops_end, rule_stream_reads_counted, rule_no_swallowed_eof],
     "C01": [rule_coded_stream_bounds, rule_serializer_twins, rule_output_order, rule_reader_overwrites, rule_trivial_trait_set, rule_blocks, rule_zigzag_width],
-    "C15": [rule_cxx_header],
-    "C04": [rule_cxx_header, rule_output_order],
+    "C15": [rule_cxx_header, rule_ndjson_header],
+    "C04": [rule_cxx_header, rule_output_order, rule_ndjson_header],
     "C03": [rule_output_order, rule_reader_overwrites],
     "C17": [rule_reader_overwrites, rule_blocks, rule_trivial_trait_set],
 }
